@@ -1178,10 +1178,13 @@ class SquareWaveFactory(Carrier):
 
     def next(self, samples):
         waveform = np.zeros(samples)
-        o = self.offset % self.cycle_samples
+        # Start of the cycle in progress, relative to the first sample of
+        # this chunk (zero or negative).
+        o = -(self.offset % self.cycle_samples)
         while o < samples:
-            waveform[o:o+self.on_samples] = self.sf
+            waveform[max(o, 0):max(o+self.on_samples, 0)] = self.sf
             o += self.cycle_samples
+        self.offset += samples
         return waveform
 
 
